@@ -117,4 +117,4 @@ def run(tier):
         "must-pass-through on parse_raw_token (both header components compared on every accepting path), call-site terms of the 8 consumers (own version / purpose markers, checked first, `?`-propagated), "
         "constant tables of the 6 marker types and the 8 header strings, and the protocol's own header as first authenticated component of all 16 pre-authentication encodings",
         ["MAC / signature strength (a relabelled token fails authentication because the header is under the authenticator)", "segments produced by str::split('.') contain no '.'"],
-        extra, "that a relabelled token fails authentication (follows from R4 + MAC strength)", sem_rules={'C07.S4': 8})
+        extra, "that a relabelled token fails authentication (follows from R4 + MAC strength)", sem_rules={'C07.S4': 8, 'C07.S5': 24})
